@@ -17,7 +17,7 @@ From RU Require Import Base.Prelude Base.Utf8 Model.HostT Model.UrlRecord Model.
   Model.FilePath Proofs.C06_Path Proofs.C06_Host Proofs.C05_Enc Proofs.C03_ReachAll Proofs.C03_Reachability
   Proofs.C03_ReachAscii Proofs.C03_ReachEx Proofs.C03_Views Proofs.C03_PortInv Proofs.C03_PortParse Proofs.C03_AuthEnd Proofs.C03_ReachKnown
   Proofs.C05_AuthOfs Proofs.C02_Hist Proofs.C02_SetHostCanon Proofs.C02_Reach3 Proofs.C03_ParseFront Proofs.C03_ReachJoin Proofs.C03_ReachFull Proofs.C03_ReachFullEx Proofs.C03_ReachModel
-  Proofs.C02_Reach5 Proofs.C03_ReachFin Proofs.C03_ReachFinEx.
+  Proofs.C02_Reach5 Proofs.C03_ReachFin Proofs.C03_ReachFinEx Proofs.C03_HostKind Proofs.C03_HostKindSteps Proofs.C03_HostKindModel.
 Open Scope string_scope.
 Open Scope N_scope.
 Open Scope list_scope.
@@ -846,3 +846,86 @@ Example C03_round_trips_reach_inhabited :
   (HostOK2 mhp0 Host.host_parse_opaque Host.host_display /\ host_nonempty mhp0 Host.host_parse_opaque)
   /\ reachc4_example_stmt.
 Proof. split; [exact reachfin_hyps | exact reachc4_example]. Qed.
+
+(* ---------- V2. host() / host_str() / domain() / has_host() agree on every reached record ---------- *)
+(* C03_views leaves one clause open for wf_b records: for an IP host, host_str() (a slice of the serialization) against
+   host() (the stored address).  KT hd u (Proofs/C03_HostKind.v): if the stored host kind is Ipv4(a) / Ipv6(p), the host
+   slice is the Display text hd of that address.  (For a domain nothing is stored: host() is Domain(host slice).)  wf_b
+   does not imply KT; it is an invariant of histories:
+     - EVERY record Parser::parse_url returns satisfies it (any input, override, build; file scheme included), from a base
+       with inv03 and KT; hypothesis HostWf only; *)
+Theorem C03_host_text_parse : forall dbg hp hpo hd ovr base input u, HostWf hp hpo hd ->
+  match base with Some b => inv03 b /\ KT hd b | None => True end ->
+  parse_url dbg hp hpo hd ovr base input = POk u -> KT hd u.
+Proof. exact parse_url_kt_inv. Qed.
+Check C03_host_text_parse : forall dbg hp hpo hd ovr base input u, HostWf hp hpo hd ->
+  match base with Some b => inv03 b /\ KT hd b | None => True end ->
+  parse_url dbg hp hpo hd ovr base input = POk u -> KT hd u.
+Print Assumptions C03_host_text_parse.
+
+(*   - one call of any of the 19 mutators outside excl03 keeps it, with NO hypothesis on the host functions and no further
+       exclusion: a host setter leaves the record as it was, or ends in set_host_internal, which writes Display(h) and stores
+       the kind of h, or stores no host; every other mutator keeps the stored kind and the host text.  In particular
+       F-C02-9 (set_ip_host V4 on a non-special scheme) does not break it - the text written IS the display of the address
+       stored; what F-C02-9 breaks is the re-parse fixpoint (C02).  (wf_b u' follows from C03_step.) *)
+Theorem C03_host_text_step : forall dbg hp hpo hd u o u', (wf_b u = true /\ host_text_ok u) -> wf_b u' = true ->
+  op_args_ok o -> excl03 u o u' = false -> apply_op dbg hp hpo hd u o = Some u' -> KT hd u -> KT hd u'.
+Proof. exact kt_step. Qed.
+Check C03_host_text_step : forall dbg hp hpo hd u o u', (wf_b u = true /\ host_text_ok u) -> wf_b u' = true ->
+  op_args_ok o -> excl03 u o u' = false -> apply_op dbg hp hpo hd u o = Some u' -> KT hd u -> KT hd u'.
+Print Assumptions C03_host_text_step.
+
+(* the views of a wf_b record with KT: no host - host(), host_str(), domain() are None; a domain host t - host() =
+   Domain(t), host_str() = domain() = t; an address h - host() = h, host_str() = Display(h), domain() = None *)
+Theorem C03_host_views : forall hd u, wf_b u = true -> KT hd u -> views3 hd u.
+Proof. exact views_agree. Qed.
+Check C03_host_views : forall hd u, wf_b u = true -> KT hd u ->
+  (has_host u = false /\ host_of u = Some None /\ host_str u = Some None /\ domain u = Some None)
+  \/ (has_host u = true /\ exists t, host_of u = Some (Some (HDomain t)) /\ host_str u = Some (Some t) /\ domain u = Some (Some t))
+  \/ (has_host u = true /\ exists h, C05_Setters.is_ip h /\ host_of u = Some (Some h) /\ host_str u = Some (Some (hd h))
+                          /\ domain u = Some None).
+Print Assumptions C03_host_views.
+
+(* every record of reach03j (R4: parse of ANY text, joins against any reached record, the file-path constructors, all 19
+   mutators outside the known classes excl03k = F-C03-5, F-C02-2, F-C02-8, parts of F-C02-3 / F-C02-4; F-C02-9 is inside) *)
+Theorem C03_views_reach_joins : forall dbg hp hpo hd, HostWf hp hpo hd -> NoEmpty hp -> IpWf hd ->
+  forall u, reach03j dbg hp hpo hd u -> KT hd u /\ views3 hd u.
+Proof. exact views_reach_joins. Qed.
+Check C03_views_reach_joins : forall dbg hp hpo hd, HostWf hp hpo hd -> NoEmpty hp -> IpWf hd ->
+  forall u, reach03j dbg hp hpo hd u -> KT hd u /\ views3 hd u.
+Print Assumptions C03_views_reach_joins.
+
+(* every record of C02's quantifier Reachable3 (R5; hypotheses as in C03_reachability_full) *)
+Theorem C03_views_reachable : forall dbg hp hpo hd, HostWf hp hpo hd -> host_nonempty hp hpo -> IpWf hd ->
+  C05_Parser.HostOK hp hpo hd -> C05_Alphabet.IpOKv hd ->
+  forall u, Reachable3 dbg hp hpo hd u -> KT hd u /\ views3 hd u.
+Proof. exact views_reachable. Qed.
+Check C03_views_reachable : forall dbg hp hpo hd, HostWf hp hpo hd -> host_nonempty hp hpo -> IpWf hd ->
+  C05_Parser.HostOK hp hpo hd -> C05_Alphabet.IpOKv hd ->
+  forall u, Reachable3 dbg hp hpo hd u -> KT hd u /\ views3 hd u.
+Print Assumptions C03_views_reachable.
+
+(* with the host MODEL (a domain prints as itself) the uniform statement: host_str() = host().map(Display), has_host() =
+   host().is_some(), domain() = the payload of Host::Domain; the only premise is IdnaOK idna *)
+Theorem C03_views_reachable_model : forall dbg idna, C09_Host.IdnaOK idna ->
+  forall u, Reachable3 dbg (Host.host_parse idna) Host.host_parse_opaque Host.host_display u ->
+  exists ho, host_of u = Some ho
+    /\ host_str u = Some (option_map Host.host_display ho)
+    /\ has_host u = (match ho with Some _ => true | None => false end)
+    /\ domain u = Some (match ho with Some (HDomain t) => Some t | _ => None end).
+Proof. exact views_reachable_model. Qed.
+Check C03_views_reachable_model : forall dbg idna, C09_Host.IdnaOK idna ->
+  forall u, Reachable3 dbg (Host.host_parse idna) Host.host_parse_opaque Host.host_display u -> views_model u.
+Print Assumptions C03_views_reachable_model.
+
+Theorem C03_views_reach_joins_model : forall dbg idna, C09_Host.IdnaOK idna ->
+  forall u, reach03j dbg (Host.host_parse idna) Host.host_parse_opaque Host.host_display u -> views_model u.
+Proof. exact views_reach_joins_model. Qed.
+Print Assumptions C03_views_reach_joins_model.
+
+(* non-vacuity, on the host model with the oracle idna_clean: the hypotheses of C03_views_reach_joins hold, and the history
+   parse "a://h/p", set_ip_host(127.0.0.1) - a call INSIDE the class F-C02-9 (known_step2 = true) - is in reach03j and gives
+   "a://127.0.0.1/p" with the stored kind Ipv4(127.0.0.1), host_str() = "127.0.0.1", host() = Ipv4(127.0.0.1) *)
+Example C03_views_reach_joins_inhabited :
+  (HostWf mhp1 Host.host_parse_opaque Host.host_display /\ NoEmpty mhp1 /\ IpWf Host.host_display) /\ kt_example_stmt.
+Proof. split; [exact model_joins_hyps | exact kt_example]. Qed.
